@@ -208,3 +208,46 @@ def count_is(xs, x):
         if y is x:
             n = n + 1
     return n
+
+
+# ---------------------------------------------------------------------------
+# C02: universe membership.  State is given as parallel lists over the pool:
+# objs[i], univ[i] = objs[i]'s ordered universes, memb[i] = ordered members of
+# objs[i] if it is a universe else None.
+def index_of(objs, o):
+    i = 0
+    while i < len(objs):
+        if objs[i] is o:
+            return i
+        i = i + 1
+    return -1
+
+
+def ref_join(objs, univ, memb, u, x):
+    """x becomes a member of u (no-op when it already is)"""
+    iu = index_of(objs, u)
+    ix = index_of(objs, x)
+    if not (x in memb[iu]):
+        memb[iu].append(x)
+        if not (u in univ[ix]):
+            univ[ix].append(u)
+
+
+def ref_leave(objs, univ, memb, u, x):
+    """x leaves u; returns False (and changes nothing) when it is not a member"""
+    iu = index_of(objs, u)
+    ix = index_of(objs, x)
+    if not (x in memb[iu]):
+        return False
+    memb[iu].remove(x)
+    if u in univ[ix]:
+        univ[ix].remove(u)
+    return True
+
+
+def dedup(xs):
+    out = []
+    for x in xs:
+        if not (x in out):
+            out.append(x)
+    return out
